@@ -30,7 +30,7 @@ func unmarshal(b []byte, m gproto.Message) error { return gproto.Unmarshal(b, m)
 // Fault is one action of the fault plan, taken when the n-th inter-node call happens.
 type Fault struct {
 	At      int
-	Kind    string // tick | kill | killjob | savepoint | tickkill (a tick, and a kill Who calls behind it) | slowassign (the AssignSplits calls of the next deployment take 3 ms each) | pubkill (a tick whose completed checkpoint is published late: a worker is killed first, the publication happens while the job deploys the recovery)
+	Kind    string // tick | kill | killjob | savepoint | tickkill (a tick, and a kill Who calls behind it) | stalltick (the operators take no events for 20-40 ms, a checkpoint is started, they go on) | slowassign (the AssignSplits calls of the next deployment take 3 ms each) | pubkill (a tick whose completed checkpoint is published late: a worker is killed first, the publication happens while the job deploys the recovery)
 	Retries int    // (bookkeeping of a tick that found a checkpoint in progress and comes back)
 	Who     int
 }
@@ -63,6 +63,7 @@ type Stats struct {
 	HandlerPanics                                                           []string
 	PubDuringRecovery                                                       int // checkpoints whose publication was held until the job was deploying the recovery from a failure
 	SlowAssigns                                                             int // AssignSplits calls that took 3 ms
+	StallTicks                                                              int // checkpoints started while the operators took no events and the runners' queues were full
 }
 
 func buildData(p Program) (map[string][]Rec, map[string]int) {
@@ -313,6 +314,17 @@ settle:
 				}
 				w.Tick()
 				st.Ticks++
+			case "stalltick":
+				// The operators take no events for a while, so the source runners run
+				// ahead of them as far as their queues allow; a checkpoint is started in
+				// that state; then the operators go on.
+				w.HoldEvents(true)
+				time.Sleep(time.Duration(20+10*f.Who) * time.Millisecond)
+				w.Tick()
+				st.Ticks++
+				st.StallTicks++
+				time.Sleep(3 * time.Millisecond)
+				w.HoldEvents(false)
 			case "slowassign":
 				w.mu.Lock()
 				slowAssign = max(1, p.Cfg.Workers)
@@ -872,6 +884,23 @@ func GenProgram(rt *rapid.T, faults []string, maxFaults int) Program {
 		// first, the publication happens while the job deploys the recovery
 		a := rapid.IntRange(2*p.Cfg.Workers+2, max(2*p.Cfg.Workers+3, span/2)).Draw(rt, "pubkillat")
 		p.Faults[len(p.Faults)-1] = Fault{At: a, Kind: "pubkill", Who: rapid.IntRange(0, 3).Draw(rt, "who3")}
+	}
+	if len(faults) >= 2 && faults[max(0, len(faults)-2)] == "kill" && rapid.IntRange(0, 39).Draw(rt, "backlog") == 0 {
+		// A large backlog: batches of 32..64 events as the worker server uses them,
+		// one long split, operators that stall while a checkpoint is started (the
+		// runner's queues are full then), and a failure afterwards.
+		p.Cfg.Batch = rapid.SampledFrom([]int{32, 48, 64}).Draw(rt, "bigbatch")
+		p.Cfg.ReadBatch = 4
+		long := rapid.IntRange(1400, 2200).Draw(rt, "longsplit")
+		p.Splits[0] = make([]int, long)
+		for i := range p.Splits[0] {
+			p.Splits[0][i] = i % 7
+		}
+		p.Fan = nil
+		p.LatencyUs = nil
+		p.Faults = []Fault{{At: rapid.IntRange(2*p.Cfg.Workers+2, 2*p.Cfg.Workers+6).Draw(rt, "stallat"), Kind: "stalltick", Who: rapid.IntRange(0, 2).Draw(rt, "stallms")},
+			{At: rapid.IntRange(30, 80).Draw(rt, "killat"), Kind: "kill", Who: rapid.IntRange(0, 3).Draw(rt, "who6")}}
+		return p
 	}
 	if nf >= 2 && len(faults) >= 2 && faults[max(0, len(faults)-2)] == "kill" && rapid.IntRange(0, 4).Draw(rt, "slowassign") == 0 {
 		// a recovery whose split assignment is slow, a checkpoint as early as the
